@@ -114,7 +114,11 @@ EmbedShapes == <<
 
 EmptyShapes == <<
   WithEmpty("z.ptr", MsgF("Nothing", 1, "Empty")),
-  WithEmpty("z.val", NonNull(MsgF("Nothing", 1, "Empty"))) >>
+  WithEmpty("z.val", NonNull(MsgF("Nothing", 1, "Empty"))),
+  WithEmpty("z.list", Rep(MsgF("Subs", 1, "Empty"))),
+  WithEmpty("z.list.val", NonNull(Rep(MsgF("Subs", 1, "Empty")))),
+  WithEmpty("z.map", MapOf(MsgF("Dict", 1, "Empty"))),
+  Shape("z.root", Desc(<<Msg("Root", <<>>, <<>>)>>), BaseCfg) >>
 
 DeepShapes == <<
   WithMid("d.obj", MsgF("Mid", 1, "Mid")),
